@@ -101,11 +101,19 @@ def c03_file(draw):
             stmts.append({"k": "chargeconj", "a": new, "b": newbar} if draw(st.booleans()) else {"k": "chargeconj", "a": newbar, "b": new})
             copies.append((new, newbar))
         have.add(new)
+    # a CopyDecay whose new name is the conjugate of a mother: a later CDecay of that name meets a table that is already there
+    copy_shadow = []
+    free = [c for m, c in mothers if c is not None and c not in have]
+    if free and draw(st.sampled_from((False, False, True))):
+        c = draw(st.sampled_from(free))
+        stmts.append({"k": "copydecay", "new": c, "old": draw(st.sampled_from([m for m, _ in mothers]))})
+        have.add(c)
+        copy_shadow.append(c)
     # CDecay subjects
     subj = []
     hits = [c for m, c in mothers if c is not None and c not in have] + [nb_ for _, nb_ in copies]
     misses = [c[0] for c in cand if c[1] not in have and c[0] not in have]
-    shadowed = [m for m, c in mothers if c in have]
+    shadowed = [m for m, c in mothers if c in have] + copy_shadow * 3
     k = draw(st.integers(1, 4))
     for _ in range(k):
         kind = draw(st.integers(0, 9))
@@ -138,7 +146,30 @@ def check_case(f, rec):
                 p.parse() if inc else p.parse(include_ccdecays=False)
         else:
             p = make_parser(text, ID, include_cc=inc)
-        compare_tables(ID, p, exp)
+        try:
+            compare_tables(ID, p, exp)
+        except Mismatch:
+            # CDecay X where X has a table through CopyDecay (not through a Decay block): the statement gives precedence to a
+            # Decay block only, so X's single table may be the copy (what the library does) or the conjugate -- but one table
+            both = [x for x in R.cdecay_subjects(f) if x in R.copies(f) and x not in R.decay_tables(f)]
+            if not (inc and both):
+                raise
+            ccd_ = R.cc_dict(f)
+            have_ = {m: ls for m, o, ls in exp}
+            alt = []
+            for m, o, ls in exp:
+                src = R.conj_name(m, ccd_)
+                if m in both and o == "copy" and src in have_:
+                    ls = [dict(ln, fs=[R.conj_name(d, ccd_) for d in ln["fs"]], params=list(ln["params"])) for ln in have_[src]]
+                alt.append((m, o, ls))
+            try:
+                compare_tables(ID, p, alt)
+            except Mismatch:
+                pass
+            else:
+                both = None
+            if both is not None:
+                raise
     ccd = R.cc_dict(f)
     conj_tables = [(m, ls) for m, o, ls in exp if o == "conj"]
     src_of = {m: R.conj_name(m, ccd) for m, _ in conj_tables}
@@ -153,6 +184,8 @@ def check_case(f, rec):
     have_dec = set(R.decay_tables(f))
     if any(s in have_dec for s in subjects):
         classes.append("cdecay-shadowed-by-decay")
+    if any(s in R.copies(f) and s not in have_dec for s in subjects):
+        classes.append("cdecay-shadowed-by-copy")
     if inc and len(conj_tables) < len([s for s in subjects if s not in have_dec and s not in R.copies(f)]):
         classes.append("cdecay-miss")
     if any(src_of[m] in R.copies(f) for m, _ in conj_tables):
